@@ -27,7 +27,8 @@ def gen_caps(rng, p_fault=0.5):
     if rng.random() < 0.25: return {'default': 4, 'vec': None}
     n = rng.randint(3, 17)
     vec = [rng.choice([4, 4, 4, 8, 16, 32, 64]) for _ in range(n)]
-    return {'default': 16, 'vec': vec, 'plus3': rng.random() < 0.5}     # False: the documented length len(circuit.lines)
+    return {'default': 16, 'vec': vec, 'plus3': rng.random() < 0.5,     # False: the documented length len(circuit.lines)
+            'dtype': rng.choice(['list', 'list', 'int64', 'int32', 'uint32', 'uint16'])}
 
 
 def gen_stim(rng, n=None):
